@@ -34,7 +34,8 @@ def must_pass_through(repo, R, f, allowed_shortcuts=(), depth=3):
             data_conds = []
             for t, pol in conds:
                 txt = ast.unparse(t)
-                if any(txt.startswith(a) or a in txt for a in allowed_shortcuts):
+                # only the documented predicate itself is an accepted reason, not a larger condition that contains it
+                if isinstance(t, ast.Call) and (dotted(t.func) or "").split(".")[-1] in allowed_shortcuts:
                     continue
                 data_conds.append(("" if pol else "not ") + txt)
             names = D.slice_names(r.value)
@@ -43,7 +44,8 @@ def must_pass_through(repo, R, f, allowed_shortcuts=(), depth=3):
             if g is f or calls_gb:
                 ok = (uses_kernel or not calls_gb) and not (data_conds and not uses_kernel)
                 if calls_gb and not uses_kernel:
-                    skip = any(a in cond_text(pc.get(id(r), ())) for a in allowed_shortcuts)
+                    skip = not data_conds and any(isinstance(t, ast.Call) and (dotted(t.func) or "").split(".")[-1] in allowed_shortcuts
+                                                  for t, pol in conds if pol)
                     if skip:
                         continue
                     R.fail("MPT", g.site, "return " + ast.unparse(r.value)[:70],
